@@ -26,6 +26,7 @@ RULES = {
     "R-NORECUR": precision.r_norecur,
     "R-FROMF64": precision.r_fromf64,
     "R-NOSUM": precision.r_nosum,
+    "R-NOWIDEN": precision.r_nowiden,
     "R-RINGOPS": precision.r_ringops,
     "R-GATES": gates.r_featgate,
     "R-PLANNERGATE": gates.r_plannergate,
@@ -131,14 +132,16 @@ PROPS = {
     },
     "C06": {
         "level": "other",
-        "rules": ["R-CACHE", "R-DIRFLOW"],
+        "rules": ["R-CACHE", "R-DIRFLOW", "R-FROMF64", "R-NOWIDEN"],
         "witnesses": [],
         "explanation": "Forward/inverse separation: (R-CACHE) get/contains_fft/insert agree on direction -> map, insert keys by len() and selects by "
                        "fft_direction() of the very instance inserted, all planner look-ups pass their own direction parameter; (R-DIRFLOW) in every "
                        "function the direction stored in the struct, given to every twiddle generator and to every sub-constructor comes from one "
                        "source (own parameter, or fft_direction() of one inner transform with the other asserted equal); the only inversions are the "
                        "Bluestein kernel chirp and direction_of. A planner asked for d therefore cannot return anything assembled with another "
-                       "direction, for any request history.",
+                       "direction, for any request history. (R-FROMF64/R-NOWIDEN) the 1/m scale folded into the Rader/Bluestein kernels and every other constant "
+                       "enters through from_f64/from_usize at full precision: no from_f32, no run-time f64 expression, no f32 value widened to f64 -- a scale that is "
+                       "exact to 24 bits only makes forward-then-inverse return n*x with 1e-8 relative error for f64.",
         "decides": "a planned transform is built with the requested direction throughout; caches cannot mix directions",
         "does_not_decide": "the value identity ifft(fft(x)) = n x, rotation sign tables (bit masks), absence of scaling",
         "assumptions": ["x86_64 non-test code"],
@@ -157,7 +160,7 @@ PROPS = {
     },
     "C02": {
         "level": "other",
-        "rules": ["R-TWF64", "R-BLUEMOD", "R-NORECUR", "R-NOSUM", "R-FROMF64"],
+        "rules": ["R-TWF64", "R-BLUEMOD", "R-NORECUR", "R-NOSUM", "R-NOWIDEN", "R-FROMF64"],
         "witnesses": [],
         "explanation": "Decides the three precision MECHANISMS the property is anchored in, each a necessary condition of the bound, NOT the bound "
                        "16*eps*log2(2n) itself: (R-TWF64) in compute_twiddle the sin/cos arguments are f64 expressions built only from f64 "
@@ -166,7 +169,8 @@ PROPS = {
                        "computed in >=64-bit integer arithmetic, the 64-bit branch dominated by len < 2^32, for the length 2*destination.len(); "
                        "(R-NORECUR) no function that obtains twiddles from a twiddle source multiplies two twiddle-derived complex values (no table by "
                        "recurrence); (R-NOSUM) no iterator sum/fold/reduce of element-type values outside the naive Dft (a linear summation chain has "
-                       "eps*n error growth; hand-written accumulation loops are not covered); (R-FROMF64) constants enter only via from_f64/from_usize. A tree passing these rules can still violate the "
+                       "eps*n error growth; hand-written accumulation loops are not covered); (R-NOWIDEN) no f32 value is widened to f64 anywhere in the crate "
+                       "(an f32 constant pasted into an f64 kernel carries 24 bits); (R-FROMF64) constants enter only via from_f64/from_usize. A tree passing these rules can still violate the "
                        "numeric bound (e.g. a numerically poor butterfly); that part is value-level and not decided.",
         "decides": "mechanisms: f64-only twiddle evaluation from an integer index, integer mod 2n before the Bluestein chirp, no twiddle recurrence",
         "does_not_decide": "the bound 16*eps*log2(2n) itself; pre-scaling by 1/m beyond its appearance as a real-scalar product",
